@@ -129,7 +129,7 @@ def stream_leaves(ctx, reqs):
                 d = json.load(fh)
             if 'text' in d:
                 pool.insert(0, ('regression', d['text']))
-    for _ in range(ctx.size(120, 3000)):
+    for _ in range(ctx.size(250, 3000)):
         base = texts.valid_text(rng, fancy=True)
         pool.append(('valid', base))
         r = rng.random()
@@ -376,7 +376,7 @@ def stream_tokens(ctx):
     rng = ctx.subrng('tokens')
     how = 'jedi.Script(source).get_names(all_scopes=True, definitions=True, references=True)'
     done = 0
-    for _ in range(ctx.size(150, 4000)):
+    for _ in range(ctx.size(700, 10000)):
         text = token_program(rng)
         try:
             toks = [t for t in tokenize.generate_tokens(io.StringIO(text).readline)
@@ -452,6 +452,12 @@ def compare(ctx, cases, answers):
                     ctx.fail('names', 'get_names reports a name twice', {'source': text, 'flags': list(flags)}, observed=impl)
                 elif impl != sorted(impl, key=lambda x: (x[0], x[1])):
                     ctx.fail('names', 'get_names is not in position order', {'source': text, 'flags': list(flags)}, observed=impl)
+                else:
+                    a, d, r = flags
+                    bad = [x for x in impl if (x[3] and not d) or (not x[3] and not r)]
+                    if bad:
+                        ctx.fail('names', 'get_names(definitions=%s, references=%s) returns a name of the other kind' % (d, r),
+                                 {'source': text, 'flags': list(flags)}, observed=bad[:5])
 
 
 def run_driver_chunks(pid, reqs, jobs=6):
